@@ -492,6 +492,40 @@ func genSiblings(r *hx.Rng) *gScen {
 	return g.sc
 }
 
+// every point optional: qualifiers that match nothing although candidates of the type exist, names that are absent or of
+// another type, func tags nobody exposes, self-only points, array points — none of it may fail the start
+func genAllOptional(r *hx.Rng) *gScen {
+	g := newBuilder(r)
+	np := 2 + r.Intn(4)
+	for i := 0; i < np; i++ {
+		g.addNode(g.randType(func(u utInfo) bool { return len(u.ifs) > 0 && !u.pp }), r.P(1, 3))
+	}
+	nh := 1 + r.Intn(3)
+	for j := 0; j < nh; j++ {
+		h := g.addNode(g.randType(func(u utInfo) bool { return !u.pp }), r.P(1, 3))
+		k := 1 + r.Intn(4)
+		slots := []string{"P0", "P1", "P4", "X0", "X0b", "X1", "X2", "S0", "S1", "S2", "SP0", "A0", "A1", "AS0", "RR0"}
+		for i := 0; i < k; i++ {
+			s := slots[r.Intn(len(slots))]
+			var t string
+			switch r.Intn(6) {
+			case 0:
+				t = "w,qualifier=" + []string{"zz", "nope", "a b", "Q"}[r.Intn(4)]
+			case 1:
+				t = "w" + []string{"absent", "main/T0", g.nameOf(r.Intn(np))}[r.Intn(3)]
+			case 2:
+				t = "f" + []string{"Nope", "F1,returns=none", "F2"}[r.Intn(3)]
+			case 3:
+				t = "w,qualifier=zz"
+			default:
+				t = "w"
+			}
+			g.sc.nodes[h].slots[s] = t + ",required=false"
+		}
+	}
+	return g.sc
+}
+
 // a lazy holder whose FIRST creation fails (Init fails once) and which nobody needs during the start: after Run it is looked
 // up until a retried creation succeeds. Its points — slices, single values, by name — must then hold what a first-time
 // population would have given them (the property nodes of the definition survive the failed attempt).
@@ -860,6 +894,7 @@ func graphCorpus(w *hx.Writer) {
 		emitGraph(genSliceCycle(r.Fork()), []string{"corpus", "slicecycle"}, w)
 		emitGraph(genSelf(r.Fork()), []string{"corpus", "self"}, w)
 		emitGraph(genArrayCycle(r.Fork()), []string{"corpus", "arraycycle"}, w)
+		emitGraph(genAllOptional(r.Fork()), []string{"corpus", "alloptional"}, w)
 	}
 }
 
